@@ -1,5 +1,6 @@
 import BS.Model.KV
 import BS.Model.Table
+import BS.Model.Merge
 import BS.Model.Part
 import Driver.C17
 namespace Driver.C09
@@ -93,7 +94,11 @@ def run10 (c obs : String) : String × String × Bool :=
     let (want, keysWant) : List String × List Int := match kind with
       | "sort" => let s := sortKV (ups.headD []); (s.map showKV, s.map (·.1))
       | "merge" => let s := mergeAll ups; (s.map showKV, s.map (·.1))
-      | _ => let s := reduceAll (· + ·) ups; (s.map showKV, s.map (·.1))
+      | _ =>
+        -- the reduce-merge machine (BS.Merge) on strictly sorted streams, the keyed fold otherwise (equal: run_spec)
+        let strict := ups.all fun s => (s.zip (s.drop 1)).all fun (a, b) => a.1 < b.1
+        let s := if strict then BS.Merge.run (· + ·) (ups.flatten.length + 1) ups else reduceAll (· + ·) ups
+        (s.map showKV, s.map (·.1))
     let model := "rows=" ++ joinWith ";" want
     if dirs != "0" then (model, s!"spill files outlive the reader's creation (spilldirs={dirs})", false) else
     let (o, s) := C17.judge kind failing false want body
